@@ -31,6 +31,7 @@ import (
 	"strconv"
 	"strings"
 	"sync"
+	"sync/atomic"
 	"syscall"
 	"time"
 	"unsafe"
@@ -1764,8 +1765,14 @@ func raceChild(bin bool, nbinds, nevents int) {
 	var mu sync.Mutex
 	calls := 0
 	markers := 0
-	markerCh := make(chan struct{}, 1)
+	markerCh := make(chan struct{}, 2)
 	goCh := make(chan struct{})
+	phase2Ch := make(chan struct{})
+	// handlers registered while events flow: index i (0 <= i < 2*nbinds), goroutine A takes the even
+	// indices, goroutine B the odd ones (seed C19-12: a copy-on-write handler table whose writers do
+	// not exclude each other loses registrations made from two goroutines at once)
+	lateID := func(i int) uint32 { return uint32(1000 + i) }
+	late := make([]int32, 2*nbinds)
 	go func() {
 		conn, err := ln.Accept()
 		if err != nil {
@@ -1786,6 +1793,29 @@ func raceChild(bin bool, nbinds, nevents int) {
 		<-goCh
 		for i := 0; i < nevents; i++ {
 			e := &rwp.HWCEvent{HWCID: uint32(1 + i%4), Binary: &rwp.BinaryEvent{Pressed: i%2 == 0}}
+			for _, it := range g.msgItems(bin, &rwp.OutboundMessage{Events: []*rwp.HWCEvent{e}}) {
+				conn.Write(it.wire())
+			}
+			if i%50 == 0 {
+				time.Sleep(time.Millisecond)
+			}
+		}
+		conn.Write(markerItem(bin).wire())
+		// phase 2 (after every Bind* call of the registering goroutines has returned): one event of the
+		// matching kind for each handler registered while events flowed, then the marker again
+		<-phase2Ch
+		for i := 0; i < 2*nbinds; i++ {
+			e := &rwp.HWCEvent{HWCID: lateID(i)}
+			switch i % 5 {
+			case 0, 4:
+				e.Binary = &rwp.BinaryEvent{Pressed: true}
+			case 1:
+				e.Pulsed = &rwp.PulsedEvent{Value: 1}
+			case 2:
+				e.Absolute = &rwp.AbsoluteEvent{Value: 5}
+			case 3:
+				e.Speed = &rwp.SpeedEvent{Value: 2}
+			}
 			for _, it := range g.msgItems(bin, &rwp.OutboundMessage{Events: []*rwp.HWCEvent{e}}) {
 				conn.Write(it.wire())
 			}
@@ -1815,28 +1845,31 @@ func raceChild(bin bool, nbinds, nevents int) {
 	})
 	close(goCh)
 	var wg sync.WaitGroup
-	wg.Add(1)
-	go func() { // the "other goroutine" registering handlers while events flow
-		defer wg.Done()
-		for i := 0; i < nbinds; i++ {
-			id := uint32(1000 + i)
-			switch i % 5 {
-			case 0:
-				rp.BindBinary(id, func(uint32, gorwp.BinaryStatus, gorwp.BinaryEdge) {})
-			case 1:
-				rp.BindPulsed(id, func(uint32, int) {})
-			case 2:
-				rp.BindAbsolute(id, func(uint32, int) {})
-			case 3:
-				rp.BindIntensity(id, func(uint32, int) {})
-			case 4:
-				rp.BindTrigger(id, func(uint32, *rwp.HWCEvent) {})
+	for who := 0; who < 2; who++ { // two "other goroutines" registering handlers while events flow
+		wg.Add(1)
+		go func(who int) {
+			defer wg.Done()
+			for i := who; i < 2*nbinds; i += 2 {
+				id, slot := lateID(i), &late[i] // (go 1.19 loop variable semantics: take the address now)
+				hit := func() { atomic.AddInt32(slot, 1) }
+				switch i % 5 {
+				case 0:
+					rp.BindBinary(id, func(uint32, gorwp.BinaryStatus, gorwp.BinaryEdge) { hit() })
+				case 1:
+					rp.BindPulsed(id, func(uint32, int) { hit() })
+				case 2:
+					rp.BindAbsolute(id, func(uint32, int) { hit() })
+				case 3:
+					rp.BindIntensity(id, func(uint32, int) { hit() })
+				case 4:
+					rp.BindTrigger(id, func(uint32, *rwp.HWCEvent) { hit() })
+				}
+				if i%40 == who {
+					time.Sleep(200 * time.Microsecond)
+				}
 			}
-			if i%20 == 0 {
-				time.Sleep(200 * time.Microsecond)
-			}
-		}
-	}()
+		}(who)
+	}
 	select {
 	case <-markerCh:
 		fmt.Fprintln(caseOut, "CHILD live")
@@ -1844,11 +1877,22 @@ func raceChild(bin bool, nbinds, nevents int) {
 		fmt.Fprintln(caseOut, "CHILD stalled")
 	}
 	wg.Wait()
+	close(phase2Ch)
+	select {
+	case <-markerCh:
+	case <-time.After(watchdog + 5*time.Second):
+	}
+	lateBad := 0
+	for i := range late {
+		if atomic.LoadInt32(&late[i]) != 1 {
+			lateBad++
+		}
+	}
 	mu.Lock()
-	if calls == nevents {
+	if calls == nevents && lateBad == 0 {
 		fmt.Fprintln(caseOut, "CHILD calls-ok")
 	} else {
-		fmt.Fprintln(caseOut, "CHILD calls", calls, "of", nevents)
+		fmt.Fprintln(caseOut, "CHILD calls", calls, "of", nevents, "; handlers registered meanwhile not invoked exactly once:", lateBad, "of", len(late))
 	}
 	mu.Unlock()
 	cancel()
